@@ -161,21 +161,26 @@ def truncated_svd(
 
     left = svd[0]
     left = left[..., :rank]
+    sinv = torch.where(  # Reciprocal singular values (null directions contribute nothing)
+        svd[1][..., :rank] > 0,
+        1.0 / svd[1][..., :rank],
+        torch.zeros_like(svd[1][..., :rank]),
+    )
 
     start = time.time()
     if singular_vectors == "left":
         if left_ortho:
             M2 = left.permute(dims_permute) @ M
         else:
-            M2 = (1.0 / svd[1][..., :rank])[..., None] * left.permute(dims_permute) @ M
+            M2 = sinv[..., None] * left.permute(dims_permute) @ M
             if batch:
                 left = torch.einsum("bij,bj->bij", left, svd[1][..., :rank])
             else:
                 left = left * svd[1][:rank]
     else:
         if left_ortho:
-            M2 = M @ (left * (1.0 / svd[1][..., :rank])[..., None, :])
-            left, M2 = M2, (left @ (torch.diag(svd[1][..., :rank]))).permute(
+            M2 = M @ (left * sinv[..., None, :])
+            left, M2 = M2, (left @ (torch.diag_embed(svd[1][..., :rank]))).permute(
                 dims_permute
             )
         else:
